@@ -1,4 +1,5 @@
 import MpVerif.C18.Lemmas
+import MpVerif.C18.GenTie
 /-!
 # C18 — Expression equality is a structural equivalence consistent with hashing
 
@@ -34,6 +35,29 @@ theorem C18_trans (a b c : E C) (hab : equalX N a b = .tt) (hbc : equalX N b c =
 theorem C18_refl_partial (a : E C) (hn : noNaN N a = true) (hs : okC a = true) :
     equalX N a a = .tt :=
   complete N a a (sim_refl N a hn) hs
+
+/-- On comparator-supported trees reflexivity fails *exactly* at NaN constants. -/
+theorem C18_refl_iff_noNaN_partial (a : E C) (hs : okC a = true) :
+    equalX N a a = .tt ↔ noNaN N a = true :=
+  ⟨fun h => sim_noNaN N a a (sound N a a h).1, fun hn => C18_refl_partial N a hn hs⟩
+
+/-- ... and there the answer is `false` (not an exception). -/
+theorem C18_refl_nan_is_false_partial (a : E C) (hs : okC a = true) (hn : noNaN N a = false) :
+    equalX N a a = .ff := by
+  have h := C18_refl_iff_noNaN_partial N a hs
+  have ht : equalX N a a ≠ .tt := fun e => by rw [h.mp e] at hn; exact Bool.noConfusion hn
+  have := R.isBool_iff.mp (total N a a hs)
+  cases this with
+  | inl e => exact absurd e ht
+  | inr e => exact e
+
+/-- Composition: on the comparator-supported NaN-free trees, "`Equal` returns true" is an equivalence
+relation (reflexive, symmetric, transitive together, any number of steps). -/
+theorem C18_equivalence_partial :
+    Equivalence (fun (a b : {a : E C // okC a = true ∧ noNaN N a = true}) => equalX N a.1 b.1 = .tt) where
+  refl a := C18_refl_partial N a.1 a.2.2 a.2.1
+  symm h := by rw [C18_symm]; exact h
+  trans h1 h2 := C18_trans N _ _ _ h1 h2
 
 /-! ## Equality is structural identity -/
 
@@ -100,6 +124,104 @@ theorem C18_total_partial (a b : E C) (hs : okC a = true ∨ okC b = true) :
 /-- No null dereference, at full strength (since the fix of `ExprComparator::VisitCall`). -/
 theorem C18_no_ub (a b : E C) : equalX N a b ≠ .ub := no_ub N a b
 
+/-! ## Tie to the source by translation (round 4)
+
+`lean/MpVerif/Gen/C18.lean` is regenerated on every run by `translators/gen_expr_c18.py` from clang's typed
+AST of the instantiated `src/expr.cc`: entry of `mp::Equal` / `std::hash<mp::Expr>`, the dispatch of all 71
+kinds through `BasicExprVisitor` to the terminal handler of `ExprComparator` / `ExprHasher`, the body of every
+loop-free handler (which fields are compared / hashed, in which order, through which primitive), the seed of
+`Hash(e)` and the arithmetic of `HashCombine`.  The theorems below say that the hand model `equalX` / `hashX`
+satisfies exactly the recursion equations of that generated description, so every theorem above is a theorem
+about the fixed point of the translated code; the four loop-carrying handlers are tied by their syntax trees. -/
+section gen
+open MpVerif.Gen.C18
+
+theorem C18_gen_hashCombine (s h : UInt64) : combine s h = hashCombine s h := rfl
+
+theorem C18_gen_equal_step (a b : E C) :
+    equalX N a b = equalStep N equalEntry cmpBody (equalX N) a b := by
+  cases a with
+  | num x => cases b <;> simp [equalX, equalStep, equalEntry, visitCmp, E.kind, cmpBody, conjSem, atomSem]
+  | ref k i =>
+    cases b with
+    | ref k' j =>
+      by_cases h : k = k'
+      · subst h; cases k <;> simp [equalX, equalStep, equalEntry, visitCmp, E.kind, cmpBody, conjSem, atomSem]
+      · simp [equalX, equalStep, equalEntry, E.kind, h]
+    | _ => simp [equalX, equalStep, equalEntry, E.kind]
+  | un k a =>
+    cases b with
+    | un k' b => exact gen_equal_step_diag_un N k k' a b
+    | _ => simp [equalX, equalStep, equalEntry, E.kind]
+  | bin k l r =>
+    cases b with
+    | bin k' l' r' => exact gen_equal_step_diag_bin N k k' l r l' r'
+    | _ => simp [equalX, equalStep, equalEntry, E.kind]
+  | ite k c t e =>
+    cases b with
+    | ite k' c' t' e' =>
+      by_cases h : k = k'
+      · subst h; cases k <;> simp [equalX, equalStep, equalEntry, visitCmp, E.kind, cmpBody, conjSem, atomSem, child]
+      · simp [equalX, equalStep, equalEntry, E.kind, h]
+    | _ => simp [equalX, equalStep, equalEntry, E.kind]
+  | pl sb last arg =>
+    cases b <;> simp [equalX, equalStep, equalEntry, visitCmp, E.kind, cmpBody, opaqueCmp]
+  | call f as =>
+    cases b <;> simp [equalX, equalStep, equalEntry, visitCmp, E.kind, cmpBody, opaqueCmp]
+  | iter k as =>
+    cases b with
+    | iter k' bs =>
+      by_cases h : k = k'
+      · subst h; cases k <;> simp [equalX, equalStep, equalEntry, visitCmp, E.kind, cmpBody, opaqueCmp, IterK.unsupported]
+      · simp [equalX, equalStep, equalEntry, E.kind, h]
+    | _ => simp [equalX, equalStep, equalEntry, E.kind]
+  | bool x => cases b <;> simp [equalX, equalStep, equalEntry, visitCmp, E.kind, cmpBody, conjSem, atomSem]
+  | str s => cases b <;> simp [equalX, equalStep, equalEntry, visitCmp, E.kind, cmpBody]
+
+theorem C18_gen_hash_step (a : E C) :
+    hashX P a = hashStep P hashEntry hashBody hashCombine hashSeed (hashX P) a := by
+  cases a with
+  | num v => simp [hashX, hashStep, hashEntry, hashBody, E.kind, chainSem, hashKind, hashSeed, ← C18_gen_hashCombine]
+  | ref k i => cases k <;> simp [hashX, hashStep, hashEntry, hashBody, E.kind, chainSem, hashKind, hashSeed, ← C18_gen_hashCombine]
+  | un k a =>
+    cases k <;> simp only [hashX, hashStep, hashEntry, hashBody, E.kind, chainSem, child, hashKind, hashSeed, ← C18_gen_hashCombine] <;>
+      cases hashX P a <;> rfl
+  | bin k l r =>
+    cases k <;> simp only [hashX, hashStep, hashEntry, hashBody, E.kind, chainSem, child, hashKind, hashSeed, ← C18_gen_hashCombine] <;>
+      cases hashX P l <;> cases hashX P r <;> rfl
+  | ite k c t e =>
+    cases k <;> simp only [hashX, hashStep, hashEntry, hashBody, E.kind, chainSem, child, hashKind, hashSeed, ← C18_gen_hashCombine] <;>
+      first | rfl | (cases hashX P c <;> cases hashX P t <;> cases hashX P e <;> simp)
+  | pl sb last arg =>
+    simp only [hashX, hashStep, hashEntry, hashBody, E.kind, opaqueHash]
+    cases hashX P arg <;> rfl
+  | call f as => simp [hashX, hashStep, hashEntry, hashBody, E.kind, opaqueHash]
+  | iter k as => cases k <;> simp [hashX, hashStep, hashEntry, hashBody, E.kind, opaqueHash, IterK.unsupported]
+  | bool v => simp [hashX, hashStep, hashEntry, hashBody, E.kind, chainSem, hashKind, hashSeed, ← C18_gen_hashCombine]
+  | str s => simp [hashX, hashStep, hashEntry, hashBody, E.kind, opaqueHash]
+
+theorem C18_gen_shape_cmp_VisitPLTerm : cmpShape_VisitPLTerm = Frozen.cmpShape_VisitPLTerm := rfl
+theorem C18_gen_shape_cmp_VisitCall : cmpShape_VisitCall = Frozen.cmpShape_VisitCall := rfl
+theorem C18_gen_shape_cmp_VisitVarArg : cmpShape_VisitVarArg = Frozen.cmpShape_VisitVarArg := rfl
+theorem C18_gen_shape_hash_VisitPLTerm : hashShape_VisitPLTerm = Frozen.hashShape_VisitPLTerm := rfl
+theorem C18_gen_shape_hash_VisitCall : hashShape_VisitCall = Frozen.hashShape_VisitCall := rfl
+theorem C18_gen_shape_hash_VisitVarArg : hashShape_VisitVarArg = Frozen.hashShape_VisitVarArg := rfl
+theorem C18_gen_shape_hash_VisitStringLiteral : hashShape_VisitStringLiteral = Frozen.hashShape_VisitStringLiteral := rfl
+/-- members of the handle classes (include/mp/expr.h) that the loop-carrying handlers call -/
+theorem C18_gen_helper_CallExpr_arg : helperShape_CallExpr_arg = Frozen.helperShape_CallExpr_arg := rfl
+theorem C18_gen_helper_CallExpr_function : helperShape_CallExpr_function = Frozen.helperShape_CallExpr_function := rfl
+theorem C18_gen_helper_CallExpr_num_args : helperShape_CallExpr_num_args = Frozen.helperShape_CallExpr_num_args := rfl
+theorem C18_gen_helper_Function_eq : helperShape_Function_eq = Frozen.helperShape_Function_eq := rfl
+theorem C18_gen_helper_Function_name : helperShape_Function_name = Frozen.helperShape_Function_name := rfl
+theorem C18_gen_helper_Function_ne : helperShape_Function_ne = Frozen.helperShape_Function_ne := rfl
+theorem C18_gen_helper_PLTerm_arg : helperShape_PLTerm_arg = Frozen.helperShape_PLTerm_arg := rfl
+theorem C18_gen_helper_PLTerm_breakpoint : helperShape_PLTerm_breakpoint = Frozen.helperShape_PLTerm_breakpoint := rfl
+theorem C18_gen_helper_PLTerm_num_breakpoints : helperShape_PLTerm_num_breakpoints = Frozen.helperShape_PLTerm_num_breakpoints := rfl
+theorem C18_gen_helper_PLTerm_slope : helperShape_PLTerm_slope = Frozen.helperShape_PLTerm_slope := rfl
+theorem C18_gen_helper_StringLiteral_value : helperShape_StringLiteral_value = Frozen.helperShape_StringLiteral_value := rfl
+
+end gen
+
 /-! ## Counterexamples (replayed against the real code by the check) -/
 
 /-- the quiet NaN 0x7ff8000000000000 -/
@@ -131,6 +253,50 @@ theorem C18_counterexample_call_arg_symbolic_if (f : Nat) (c t e : E C) :
   simp [equalX, equalArgs, E.kind, Kind.isNumeric, R.and]
 
 /-! ## Non-vacuity -/
+
+/-- primitive hashers meeting hypothesis `hc` of `C18_hash_congr` without being constant: ±0 ↦ 0, every
+other bit pattern to itself (what libstdc++'s `std::hash<double>` does up to a bijection) -/
+def samplePrims : Prims UInt64 where
+  hKind _ := 7
+  hDbl v := if dblIsZero v then 0 else v
+  hInt i := i.toNat.toUInt64
+  hBool b := if b then 1 else 0
+  hChar c := c.toUInt64
+  hFun f := f.toUInt64
+
+theorem samplePrims_hc : ∀ x y, ieee.feq x y = true → samplePrims.hDbl x = samplePrims.hDbl y := by
+  intro x y h
+  simp only [ieee, dblEq, Bool.and_eq_true, Bool.or_eq_true, Bool.not_eq_true', beq_iff_eq] at h
+  simp only [samplePrims]
+  cases h.2 with
+  | inl e => rw [e]
+  | inr z => simp [z.1, z.2]
+
+/-- `C18_hash_congr` applied to a pair that is equal without being identical (−0.0 vs +0.0 inside a tree) -/
+example :
+    hashX samplePrims (.bin .add (.num 0x8000000000000000) (.ref .var 1)) =
+      hashX samplePrims (.bin .add (.num 0) (.ref .var 1)) :=
+  (C18_hash_congr ieee samplePrims samplePrims_hc _ _ (by decide)).1
+/-- `samplePrims` separates trees that are not equal (the hypothesis is not met by collapsing everything) -/
+example : hashX samplePrims (.num 0x3ff0000000000000) ≠ hashX samplePrims (.num 0x4000000000000000) := by decide
+/-- `C18_trans` on a chain of three pairwise different descriptions -/
+example : equalX ieee (.un .abs (.num 0)) (.un .abs (.num 0x8000000000000000)) = .tt ∧
+    equalX ieee (.un .abs (.num 0x8000000000000000)) (.un .abs (.num 0)) = .tt := by decide
+/-- `C18_iff_structural_partial`, both directions on concrete trees: a `Sim` derivation gives `tt` … -/
+example : equalX ieee (.iter .sum [.num 0, .ref .var 2]) (.iter .sum [.num 0x8000000000000000, .ref .var 2]) = .tt :=
+  (C18_iff_structural_partial ieee _ _ (.inl (by decide))).mpr
+    (.iter (.cons (.num (by decide)) (.cons .ref .nil)))
+/-- … and `tt` gives a `Sim` derivation; a non-identical pair gives `ff` -/
+example : Sim ieee (.call 2 [.str [97]]) (.call 2 [.str [97, 0, 98]]) :=
+  (C18_iff_structural_partial ieee _ _ (.inl (by decide))).mp (by decide)
+example : equalX ieee (.call 2 [.str [97]]) (.call 1 [.str [97]]) = .ff := by decide
+/-- `C18_refl_nan_is_false_partial`: hypotheses met by a supported tree with a NaN below the root -/
+example : equalX ieee (.bin .mul (.ref .var 0) (.num qnan)) (.bin .mul (.ref .var 0) (.num qnan)) = .ff :=
+  C18_refl_nan_is_false_partial ieee _ (by decide) (by decide)
+/-- `C18_total_partial` with only the *right* operand supported, `C18_kind_first` on same-layout kinds -/
+example : equalX ieee (.iter .numberOfSym [.str [97]]) (.iter .numberOf [.num 0]) = .ff := by decide
+example : equalX ieee (.un .sin (.ref .var 0)) (.un .cos (.ref .var 0)) = .ff :=
+  C18_kind_first ieee _ _ (by decide)
 
 /-- a tree using every supported layout, NaN-free -/
 def sample : E UInt64 :=
